@@ -307,6 +307,9 @@ fn classes(id: &str, thorough: bool) -> Vec<Class> {
             v.push(Class { desc: "3 threads x <=2 ops".into(), progs: multisets(&w2, 3), budget: b(3, 1, 0) });
             v.push(Class { desc: "4 threads x 1 op".into(), progs: multisets(&w1, 4), budget: b(3, 1, 0) });
             v.push(Class { desc: "4 threads, one with 2 ops".into(), progs: one_long(4), budget: b(2, 1, 0) });
+            // one call woken many times without winning: counters/tables indexed by the number of wake-ups
+            v.push(Class { desc: "2 threads x 1 op, up to 14 spurious futex returns".into(), progs: multisets(&w1, 2), budget: b(2, 14, 0) });
+            v.push(Class { desc: "3 threads x 1 op, up to 7 spurious futex returns".into(), progs: multisets(&w1, 3), budget: b(1, 7, 0) });
         } else {
             v.push(Class { desc: "2 threads x <=3 ops, stale reads".into(), progs: multisets(&w3, 2), budget: b(6, 2, 2) });
             v.push(Class { desc: "3 threads x <=2 ops, stale reads".into(), progs: multisets(&w2, 3), budget: b(3, 2, 1) });
@@ -315,18 +318,23 @@ fn classes(id: &str, thorough: bool) -> Vec<Class> {
             v.push(Class { desc: "4 threads x 1 op, deeper preemption".into(), progs: multisets(&w1, 4), budget: b(4, 1, 0) });
             v.push(Class { desc: "4 threads x <=2 ops".into(), progs: multisets(&w2, 4), budget: b(2, 1, 0) });
             v.push(Class { desc: "5 threads x 1 op".into(), progs: multisets(&w1, 5), budget: b(2, 1, 0) });
+            v.push(Class { desc: "2 threads x 1 op, up to 20 spurious futex returns".into(), progs: multisets(&w1, 2), budget: b(2, 20, 0) });
+            v.push(Class { desc: "3 threads x 1 op, up to 10 spurious futex returns".into(), progs: multisets(&w1, 3), budget: b(1, 10, 0) });
         }
     } else if !thorough {
         v.push(Class { desc: "2 threads x <=2 ops, stale reads".into(), progs: multisets(&w2, 2), budget: b(4, 1, 1) });
         v.push(Class { desc: "3 threads x 1 op".into(), progs: multisets(&w1, 3), budget: b(3, 2, 0) });
         v.push(Class { desc: "3 threads, one with 2 ops".into(), progs: one_long(3), budget: b(2, 1, 0) });
         v.push(Class { desc: "4 threads x 1 op".into(), progs: multisets(&w1, 4), budget: b(2, 1, 0) });
+        v.push(Class { desc: "2 threads x 1 op, up to 12 spurious futex returns".into(), progs: multisets(&w1, 2), budget: b(2, 12, 0) });
     } else {
         v.push(Class { desc: "2 threads x <=2 ops, stale reads".into(), progs: multisets(&w2, 2), budget: b(6, 2, 2) });
         v.push(Class { desc: "3 threads x 1 op, stale reads".into(), progs: multisets(&w1, 3), budget: b(4, 2, 1) });
         v.push(Class { desc: "3 threads, one with 2 ops".into(), progs: one_long(3), budget: b(3, 1, 0) });
         v.push(Class { desc: "4 threads x 1 op".into(), progs: multisets(&w1, 4), budget: b(3, 1, 0) });
         v.push(Class { desc: "4 threads, one with 2 ops".into(), progs: one_long(4), budget: b(2, 0, 0) });
+        v.push(Class { desc: "2 threads x 1 op, up to 18 spurious futex returns".into(), progs: multisets(&w1, 2), budget: b(2, 18, 0) });
+        v.push(Class { desc: "3 threads x 1 op, up to 8 spurious futex returns".into(), progs: multisets(&w1, 3), budget: b(1, 8, 0) });
     }
     v
 }
@@ -344,7 +352,15 @@ fn run_lock(id: &'static str, args: &Args) -> Report {
     let mut determinism_checked = false;
     // wall cap per program (seconds): a hit is reported as a cap, the class is then not complete
     let class_cap: u64 = std::env::var("VERIF_PROG_CAP_S").ok().and_then(|s| s.parse().ok()).unwrap_or(if args.thorough { 900 } else { 120 });
-    for class in classes(id, args.thorough) {
+    // experiment switch: --budget p,d,w overrides every class budget (used with --prog)
+    let budget_override: Option<Budget> = args.rest.iter().position(|a| a == "--budget").map(|i| {
+        let v: Vec<u8> = args.rest[i + 1].split(',').map(|x| x.parse().unwrap()).collect();
+        Budget { p: v[0], d: v[1], w: v[2] }
+    });
+    for mut class in classes(id, args.thorough) {
+        if let Some(b) = budget_override {
+            class.budget = b;
+        }
         let t0 = now();
         let mut cs = 0u64;
         let mut ct = 0u64;
